@@ -18,7 +18,30 @@ Export ListNotations.
 Local Open Scope N_scope.
 
 Record step := { s_t : nat; s_ran : bool; s_tag : N; s_du : N; s_li : N; s_base : N; s_slots : list Z }.
-Record case := { c_size : nat; c_progs : list (list op); c_steps : list step; c_rebuilt : bool }.
+(** API-level programs as the harness runs them *)
+Inductive aop := ABegin (i : N) | ADone (i : N) | AWait (i : N) | ABeginMany (l : list N) | ADoneMany (l : list N).
+
+Fixpoint begin_parts (first : bool) (l : list N) : list op :=
+  match l with
+  | [] => []
+  | [i] => [if first then Begin i else BeginL i]
+  | i :: r => (if first then BeginF i else BeginC i) :: begin_parts false r
+  end.
+Fixpoint done_parts (first : bool) (l : list N) : list op :=
+  match l with
+  | [] => []
+  | i :: r => (if first then Done i else DoneC i) :: done_parts false r
+  end.
+Definition desugar (a : aop) : list op :=
+  match a with
+  | ABegin i => [Begin i] | ADone i => [Done i] | AWait i => [Wait i]
+  | ABeginMany l => begin_parts true l
+  | ADoneMany l => done_parts true l
+  end.
+Definition elems (a : aop) : list N :=
+  match a with ABegin i | ADone i | AWait i => [i] | ABeginMany l | ADoneMany l => l end.
+
+Record case := { c_size : nat; c_progs : list (list aop); c_steps : list step; c_rebuilt : bool }.
 
 Definition pc_tag (p : pc) : N :=
   match p with
@@ -58,9 +81,10 @@ Fixpoint agree (g : gstate) (steps : list step) : bool :=
   end.
 
 (** ---- the oracle: outstanding indices from tags ---- *)
-Record tstate := { ts_done : nat; ts_prev : N; ts_eff : bool }.   (* completed ops, previous tag, Begin took effect *)
+Record tstate := { ts_done : nat; ts_prev : N; ts_eff : bool; ts_sub : nat }.
+  (* completed API calls, previous tag, single Begin took effect, slot updates done in this call *)
 
-Fixpoint observe (progs : list (list op)) (ts : list tstate) (li : N) (out : list N) (steps : list step)
+Fixpoint observe (progs : list (list aop)) (ts : list tstate) (li : N) (out : list N) (steps : list step)
   : list obs :=
   match steps with
   | [] => []
@@ -68,37 +92,47 @@ Fixpoint observe (progs : list (list op)) (ts : list tstate) (li : N) (out : lis
       let t := s_t s in
       match nth_error ts t, s_ran s with
       | Some st, true =>
-          let o := nth (ts_done st) (nth t progs []) (Wait 0) in
+          let o := nth (ts_done st) (nth t progs []) (AWait 0) in
+          let e := nth (ts_sub st) (elems o) 0 in          (* element whose slot update is next *)
+          let added := ts_prev st =? 11 in                 (* this grant left addIndex.add *)
           let first_write :=
             match o with
-            | Begin i => negb (ts_eff st) &&
-                         ((ts_prev st =? 11) || ((ts_prev st =? 2) && (s_li s =? i) && negb (li =? i)))
+            | ABegin i => negb (ts_eff st) &&
+                          (added || ((ts_prev st =? 2) && (s_li s =? i) && negb (li =? i)))
             | _ => false
             end in
           let out' :=
             match o with
-            | Begin i => if first_write && (li <? i) then i :: out else out
-            | Done i => if ts_prev st =? 11 then remove_one i out else out
-            | Wait _ => out
+            | ABegin i => if first_write && (li <? i) then i :: out else out
+            | ABeginMany _ => if added && (li <? e) then e :: out else out
+            | ADone _ | ADoneMany _ => if added then remove_one e out else out
+            | AWait _ => out
             end in
           let finished := (s_tag s =? 0) || (s_tag s =? 99) in
           let st' := {| ts_done := if finished then S (ts_done st) else ts_done st;
                         ts_prev := s_tag s;
-                        ts_eff := if finished then false else (ts_eff st || first_write) |} in
+                        ts_eff := if finished then false else (ts_eff st || first_write);
+                        ts_sub := if finished then O else if added then S (ts_sub st) else ts_sub st |} in
           (s_du s, out') :: observe progs (set_nth t st' ts) (s_li s) out' r
       | _, _ => (s_du s, out) :: observe progs ts (s_li s) out r
       end
   end.
 
 Definition check (c : case) : verdict :=
-  let tr := observe (c_progs c) (map (fun _ => {| ts_done := 0; ts_prev := 0; ts_eff := false |}) (c_progs c))
+  let tr := observe (c_progs c) (map (fun _ => {| ts_done := 0; ts_prev := 0; ts_eff := false; ts_sub := 0 |}) (c_progs c))
                     0 [] (c_steps c) in
   let viol := negb (trace_safe_b tr && monotone_from_b 0 tr) in
-  mk_verdict (negb (agree (init (c_size c) (c_progs c)) (c_steps c)))
-             viol
-             (if viol && c_rebuilt c then 1 else 0).
+  let ok := agree (init (c_size c) (map (flat_map desugar) (c_progs c))) (c_steps c) in
+  (* known class 1 (C32-F28): the run contains a window rebuild AND the model — which contains the
+     rebuild race — reproduces the run step by step *)
+  mk_verdict (negb ok) viol (if viol && c_rebuilt c && ok then 1 else 0).
 
 Definition St (t : N) (ran : bool) (tag du li base : N) (slots : list Z) : step :=
   {| s_t := N.to_nat t; s_ran := ran; s_tag := tag; s_du := du; s_li := li; s_base := base; s_slots := slots |}.
-Definition Cs (size : N) (progs : list (list op)) (steps : list step) (rebuilt : bool) : case :=
+Definition Begin := ABegin.
+Definition Done := ADone.
+Definition Wait := AWait.
+Definition BeginMany := ABeginMany.
+Definition DoneMany := ADoneMany.
+Definition Cs (size : N) (progs : list (list aop)) (steps : list step) (rebuilt : bool) : case :=
   {| c_size := N.to_nat size; c_progs := progs; c_steps := steps; c_rebuilt := rebuilt |}.
